@@ -716,6 +716,23 @@ def correspond(ctx):
                 f = fields_of(p)
                 gs.append([[int(x) for x in l.split(",") if x] for l in f["lists"].split(";")])
             judge_conn(ctx, binary, [gs], "replay")
+        elif parts[0].startswith("callers "):
+            # a case of the public-API legs: re-run it and apply the evaluation-count / no-throw oracles
+            if api_binary:
+                line = parts[0]
+                c = G.parse_line(line)[1]
+                c["k"] = int(c["k"])
+                o = ctx.run_impl_cases(api_binary, [line], env=OMP1, timeout=900)[0]
+                ctx.count(line, True)
+                if o.startswith("abort:"):
+                    report(ctx, "fail", "callers:abort:%s:%s" % (c.get("meth"), o[6:60]), "%s through the public API aborts (%s)"
+                           % (c.get("meth"), o[6:]), line, {"impl": o})
+                else:
+                    f = fields_of(o)
+                    if c.get("cc") != "0" and c.get("meth") in ("isomap", "lisomap") and f.get("obs") != "ok":
+                        report(ctx, "fail", "api:check-connectivity-ignored:" + c["meth"], "%s with check_connectivity=%s on distinct "
+                               "samples throws (%s)" % (c["meth"], c["cc"], o[:120]), line, {"impl": o})
+                    evals_oracle(ctx, c, line, o, f)
         else:
             cs = [G.parse_line(p)[1] for p in parts]
             for c in cs:
